@@ -1,10 +1,19 @@
 use crate::raw::Table;
 use crate::reclaim::{Atomic, Collector, Guard, RetireShared, Shared};
+#[cfg(flurry_verif)]
+use crate::verif::{current, park_traced as park, Thread};
+#[cfg(not(flurry_verif))]
 use core::sync::atomic::{AtomicBool, AtomicI64, Ordering};
 use parking_lot::Mutex;
 use seize::{Link, Linked};
 use std::borrow::Borrow;
+#[cfg(not(flurry_verif))]
 use std::thread::{current, park, Thread};
+#[cfg(flurry_verif)]
+use {
+    crate::verif::AtomicI64,
+    core::sync::atomic::{AtomicBool, Ordering},
+};
 
 /// Entry in a bin.
 ///
@@ -940,6 +949,12 @@ impl<K, V> TreeBin<K, V> {
         bin: Shared<'g, BinEntry<K, V>>,
         guard: &'g Guard<'_>,
     ) {
+        #[cfg(flurry_verif)]
+        crate::verif::event(
+            crate::verif::EV_RETIRE,
+            bin.as_ptr() as usize,
+            crate::verif::collector_id(guard),
+        );
         guard.defer_retire(bin.as_ptr(), |link| {
             let bin = unsafe {
                 // SAFETY: `bin` is a `Linked<BinEntry<K, V>>`
